@@ -105,8 +105,13 @@ def run(ctx):
     prev_text = None
     for _ in range(rounds):
         text, comps = gen_changelog(rng)
-        for form in ("str", "lines", "lines+nl", "str, allow_empty_author"):
+        for form in ("str", "lines", "lines+nl", "str, allow_empty_author", "bytes", "text file object"):
             src = text if form.startswith("str") else (text.split("\n")[:-1] if form == "lines" else text.splitlines(True))
+            if form == "bytes":
+                src = text.encode("utf-8")
+            elif form == "text file object":
+                import io
+                src = io.StringIO(text)
             try:
                 with warnings.catch_warnings():
                     warnings.simplefilter("error")
